@@ -122,6 +122,15 @@ CHECKS = {
              "struct, plus the Coq model for the transcribed bodies.",
         design_ref="DESIGN.md section 7, C20",
         technique="Coq proof (induction on free-monad programs; assembler and slot invariant) + regenerated wiring table + differential co-execution of scripts"),
+    "C05": dict(
+        text="Machine-checked theorems (Props/C05.v) about a transcription of what #[unimock] emits for a method of any shape (receiver, parameter-class list of any length, flavour): "
+             "the five input destructurings and the 1-vs-n tuple packing are mutually inverse; under a move-semantics binding environment the generated body evaluates once, shows the matcher "
+             "the caller's arguments in declaration order (Impossible for `&mut T<'_>`), applies the answer function to the declared receiver and exactly the caller's arguments, and returns its "
+             "result and its writes through &mut parameters unchanged; async flavours run nothing at construction or when dropped unpolled and exactly once per await. RPIT futures on `&mut self`/Pin "
+             "receivers are excluded as known finding F4 (expansion does not compile). Tied to /repo by generating traits over the grammar (pairwise covering + random, distinct ids, same-typed "
+             "neighbours), compiling them with the real macro into one crate and comparing per method what matcher, answer, caller and evaluation counters observed with the model's prediction.",
+        design_ref="DESIGN.md section 7, C05",
+        technique="Coq proof (induction over parameter lists; body AST under a move-semantics environment) + generated-program co-execution against the real proc macro"),
 }
 
 NOT_YET = "check not built yet (work in progress in this session; designed in DESIGN.md section 7)"
